@@ -22,50 +22,85 @@ func zzC04Ports(k int) []netv1.NetworkPolicyPort {
 	return nil
 }
 
-// one side: workloads a, b (and c if withC; b absent if noB); a policy on a with egress to an ipBlock with
-// symbolic network bits (optionally an except) and to app=b, with port shapes chosen per rule
-func zzC04Side(side string, book *zzCidrBook, withC, noB bool) []parser.K8sObject {
-	nIP, nPod, allowEx := 3, 3, true
-	if vf_Tier() == 0 { // quick: prefix lengths {0,24}; fewer port shapes; an except on side 1 only
-		book.menu = []int{0, 24}
-		nIP = 1
-		nPod = 1
-		if side == "s2" {
-			nIP = 2
-			nPod = 2
-			allowEx = false
-		}
-	}
-	return zzC04SideX(side, book, withC, noB, nIP, nPod, allowEx)
+// zzC04Opt: which dimensions a harness opens (each harness opens a few, to keep the product of choices small)
+type zzC04Opt struct {
+	nIP, nPod int  // port-shape menus of the ipBlock rule and of the pod rule
+	ex, blk2  bool // optional except inside the block; optional second block with other ports
+	blk2Only  bool // the second block is always there
+	ns2       bool // a second workload named a in ns2, optionally governed by the same policy
+	ingress   bool // the policy governs ingress (ranges are sources) instead of egress
 }
 
-func zzC04SideX(side string, book *zzCidrBook, withC, noB bool, nIP, nPod int, allowEx bool) []parser.K8sObject {
+// one side: workloads a, b in ns1 (and c if withC; b absent if noB), optionally a second workload named a in ns2;
+// optionally a policy on app=a with a rule for an ipBlock with symbolic network bits (optionally an except),
+// optionally a rule for a second ipBlock with other ports, and a rule for app=b; optionally the same policy in ns2
+func zzC04Side(side string, book *zzCidrBook, withC, noB bool) []parser.K8sObject {
+	o := zzC04Opt{nIP: 3, nPod: 3, ex: true}
+	if vf_Tier() == 0 { // quick: prefix lengths {0,24}; fewer port shapes; an except on side 1 only
+		book.menu = []int{0, 24}
+		o = zzC04Opt{nIP: 1, nPod: 1, ex: true}
+		if side == "s2" {
+			o = zzC04Opt{nIP: 2, nPod: 2}
+		}
+	}
+	return zzC04SideX(side, book, withC, noB, o)
+}
+
+func zzC04SideX(side string, book *zzCidrBook, withC, noB bool, o zzC04Opt) []parser.K8sObject {
 	objs := []parser.K8sObject{zzDeployObj("ns1", "a", map[string]string{"app": "a"}, nil)}
+	if o.ns2 {
+		objs = append(objs, zzDeployObj("ns2", "a", map[string]string{"app": "a"}, nil))
+	}
 	if !noB {
 		objs = append(objs, zzDeployObj("ns1", "b", map[string]string{"app": "b"}, nil))
 	}
 	if withC {
 		objs = append(objs, zzDeployObj("ns1", "c", map[string]string{"app": "b"}, nil))
 	}
-	if vf_Choose(side+".policy", 2) == 0 {
+	nPol := 2
+	if o.ns2 {
+		nPol = 3
+	}
+	pol := vf_Choose(side+".policy", nPol) // 0 none, 1 in ns1, 2 the same policy in ns1 and in ns2
+	if pol == 0 {
 		return objs // no policy: everything allowed
 	}
 	blk := &netv1.IPBlock{CIDR: book.New(side + ".cidr")}
 	c := book.last()
-	if allowEx && vf_Choose(side+".nex", 2) == 1 {
+	if o.ex && vf_Choose(side+".nex", 2) == 1 {
 		ex := book.New(side + ".ex")
 		vf_Assume(zzCidrInside(book.last(), c))
 		blk.Except = []string{ex}
 	}
-	np := zzNetpolObj("ns1", "np1", netv1.NetworkPolicySpec{
-		PodSelector: metav1.LabelSelector{MatchLabels: map[string]string{"app": "a"}},
-		PolicyTypes: []netv1.PolicyType{netv1.PolicyTypeEgress},
-		Egress: []netv1.NetworkPolicyEgressRule{
-			{To: []netv1.NetworkPolicyPeer{{IPBlock: blk}}, Ports: zzC04Ports(vf_Choose(side+".ipports", nIP))},
-			{To: []netv1.NetworkPolicyPeer{{PodSelector: zzSel("app", "b")}}, Ports: zzC04Ports(vf_Choose(side+".podports", nPod))},
-		},
-	})
-	return append(objs, np)
+	ipPorts := vf_Choose(side+".ipports", o.nIP)
+	peersRules := [][]netv1.NetworkPolicyPeer{{{IPBlock: blk}}}
+	portsRules := [][]netv1.NetworkPolicyPort{zzC04Ports(ipPorts)}
+	if o.blk2 && (o.blk2Only || vf_Choose(side+".blk2", 2) == 1) {
+		// a second block with ports different from the first one's
+		blk2 := &netv1.IPBlock{CIDR: book.New(side + ".cidr2")}
+		peersRules = append(peersRules, []netv1.NetworkPolicyPeer{{IPBlock: blk2}})
+		portsRules = append(portsRules, zzC04Ports((ipPorts+1)%3))
+	}
+	peersRules = append(peersRules, []netv1.NetworkPolicyPeer{{PodSelector: zzSel("app", "b")}})
+	portsRules = append(portsRules, zzC04Ports(vf_Choose(side+".podports", o.nPod)))
+	mk := func(ns string) parser.K8sObject {
+		spec := netv1.NetworkPolicySpec{PodSelector: metav1.LabelSelector{MatchLabels: map[string]string{"app": "a"}}}
+		for i := range peersRules {
+			if o.ingress {
+				spec.PolicyTypes = []netv1.PolicyType{netv1.PolicyTypeIngress}
+				spec.Ingress = append(spec.Ingress, netv1.NetworkPolicyIngressRule{From: peersRules[i], Ports: portsRules[i]})
+			} else {
+				spec.PolicyTypes = []netv1.PolicyType{netv1.PolicyTypeEgress}
+				spec.Egress = append(spec.Egress, netv1.NetworkPolicyEgressRule{To: peersRules[i], Ports: portsRules[i]})
+			}
+		}
+		return zzNetpolObj(ns, "np1", spec)
+	}
+	objs = append(objs, mk("ns1"))
+	if pol == 2 {
+		objs = append(objs, mk("ns2"))
+	}
+	return objs
 }
 
 type zzCell struct {
@@ -73,14 +108,28 @@ type zzCell struct {
 	conn string // canonical text of the entry's connection
 }
 
-// zzCellsFor: the entries of a report from workload a to IP ranges, as cells over the symbolic address
-func zzCellsFor(conns []connlist.Peer2PeerConnection, addr uint32) []zzCell {
+// zzIPSide: the entry is between the focus workload and an IP range in the given direction; returns the range text
+func zzIPSide(src, dst Peer, focus string, focusIsSrc bool) (string, bool) {
+	if focusIsSrc {
+		if src.String() != focus || !dst.IsPeerIPType() {
+			return "", false
+		}
+		return dst.String(), true
+	}
+	if dst.String() != focus || !src.IsPeerIPType() {
+		return "", false
+	}
+	return src.String(), true
+}
+
+// zzCellsFor: the entries of a report between the focus workload and IP ranges, as cells over the symbolic address
+func zzCellsFor(conns []connlist.Peer2PeerConnection, addr uint32, focus string, focusIsSrc bool) []zzCell {
 	var cells []zzCell
 	for _, c := range conns {
-		if c.Src().String() != zzA || !c.Dst().IsPeerIPType() {
+		r, ok := zzIPSide(c.Src(), c.Dst(), focus, focusIsSrc)
+		if !ok {
 			continue
 		}
-		r := c.Dst().String()
 		lo, hi := vf_IPRangeLo(r), vf_IPRangeHi(r)
 		cells = append(cells, zzCell{in: vf_And(lo <= addr, addr <= hi), conn: connlist.GetConnectionSetFromP2PConnection(c).String()})
 	}
@@ -91,25 +140,10 @@ func zzConnText(a AllowedConnectivity) string {
 	return connlist.GetConnectionSetFromP2PConnection(connlist.NewPeer2PeerConnection(nil, nil, a.AllProtocolsAndPorts(), a.ProtocolsAndPorts())).String()
 }
 
-// C04: the diff is pointwise exact with respect to the two reports, for the pair (workload a, one symbolic
-// external address) and for the workload pairs
-func ZZ_C04_DiffPointwise() {
-	book := &zzCidrBook{}
-	wl := vf_Choose("workloads", 3) // 0 same, 1 side 2 has the new workload c, 2 side 2 lost b
-	objs1 := zzC04Side("s1", book, false, false)
-	objs2 := zzC04Side("s2", book, wl == 1, wl == 2)
-	conns1, peers1, err := connlist.ZZConnsFromObjects(connlist.NewConnlistAnalyzer(connlist.WithMuteErrsAndWarns()), objs1)
-	vf_Assert(err == nil, "list-1")
-	conns2, peers2, err := connlist.ZZConnsFromObjects(connlist.NewConnlistAnalyzer(connlist.WithMuteErrsAndWarns()), objs2)
-	vf_Assert(err == nil, "list-2")
-	da := NewDiffAnalyzer()
-	d, err := da.computeDiffFromConnlistResults(conns1, conns2, peers1, peers2)
-	vf_Assert(err == nil, "diff-computed")
-	if err != nil {
-		return
-	}
-	addr := vf_Uint32("addr")
-	cells1, cells2 := zzCellsFor(conns1, addr), zzCellsFor(conns2, addr)
+// zzC04CheckIP: for the point (focus workload, symbolic address) in one direction: exactly one covering diff entry
+// when either report has a connection there, none otherwise; the entry carries exactly c1 and c2 and the matching type
+func zzC04CheckIP(conns1, conns2 []connlist.Peer2PeerConnection, all [][]SrcDstDiff, types []DiffTypeStr, addr uint32, focus string, focusIsSrc bool) {
+	cells1, cells2 := zzCellsFor(conns1, addr, focus, focusIsSrc), zzCellsFor(conns2, addr, focus, focusIsSrc)
 	has1, has2 := false, false
 	for _, c := range cells1 {
 		has1 = vf_Or(has1, c.in)
@@ -117,16 +151,14 @@ func ZZ_C04_DiffPointwise() {
 	for _, c := range cells2 {
 		has2 = vf_Or(has2, c.in)
 	}
-	all := [][]SrcDstDiff{d.RemovedConnections(), d.AddedConnections(), d.ChangedConnections(), d.UnchangedConnections()}
-	types := []DiffTypeStr{RemovedType, AddedType, ChangedType, UnchangedType}
 	cnt := 0
 	for li, list := range all {
 		for _, e := range list {
 			vf_Assert(e.DiffType() == types[li], "entry-in-the-list-of-its-type")
-			if e.Src().String() != zzA || !e.Dst().IsPeerIPType() {
+			r, isIP := zzIPSide(e.Src(), e.Dst(), focus, focusIsSrc)
+			if !isIP {
 				continue
 			}
-			r := e.Dst().String()
 			cov := vf_And(vf_IPRangeLo(r) <= addr, addr <= vf_IPRangeHi(r))
 			cnt = cnt + vf_IteInt(cov, 1, 0)
 			t1, t2 := zzConnText(e.Ref1Connectivity()), zzConnText(e.Ref2Connectivity())
@@ -156,6 +188,85 @@ func ZZ_C04_DiffPointwise() {
 		}
 	}
 	vf_Assert(cnt == vf_IteInt(vf_Or(has1, has2), 1, 0), "exactly-one-covering-entry")
+}
+
+// C04: the diff is pointwise exact with respect to the two reports, for the pair (workload a, one symbolic
+// external address) and for the workload pairs
+func ZZ_C04_DiffPointwise() {
+	book := &zzCidrBook{}
+	wl := vf_Choose("workloads", 3) // 0 same, 1 side 2 has the new workload c, 2 side 2 lost b
+	objs1 := zzC04Side("s1", book, false, false)
+	objs2 := zzC04Side("s2", book, wl == 1, wl == 2)
+	zzC04Check(objs1, objs2, []string{zzA}, []bool{true})
+}
+
+// two blocks with different ports on one side against one block on the other: ranges with equal c1 and different
+// non-empty c2 (and the converse) must stay separate entries
+func ZZ_C04_TwoBlocks() {
+	book := &zzCidrBook{}
+	if vf_Tier() == 0 {
+		book.menu = []int{0, 24}
+	} else {
+		book.menu = []int{0, 8, 24, 32}
+	}
+	one := zzC04Opt{nIP: 2, nPod: 1}
+	two := zzC04Opt{nIP: 2, nPod: 1, blk2: true}
+	if vf_Tier() == 0 {
+		one = zzC04Opt{nIP: 1, nPod: 1}
+		two = zzC04Opt{nIP: 1, nPod: 1, blk2: true, blk2Only: true}
+	}
+	var objs1, objs2 []parser.K8sObject
+	mkSide := func(side string, o zzC04Opt) []parser.K8sObject {
+		if vf_Tier() == 0 { // quick: the two blocks are /24s, the single block /0 or /24
+			book.menu = []int{0, 24}
+			if o.blk2 {
+				book.menu = []int{24}
+			}
+		}
+		return zzC04SideX(side, book, false, false, o)
+	}
+	if vf_Choose("twoOn", 2) == 0 {
+		objs1, objs2 = mkSide("s1", one), mkSide("s2", two)
+	} else {
+		objs1, objs2 = mkSide("s1", two), mkSide("s2", one)
+	}
+	zzC04Check(objs1, objs2, []string{zzA}, []bool{true})
+}
+
+// two workloads with the same name in different namespaces, ranges as sources (ingress policies)
+func ZZ_C04_SameNameIngress() {
+	book := &zzCidrBook{}
+	if vf_Tier() == 0 {
+		book.menu = []int{0, 24}
+	} else {
+		book.menu = []int{0, 8, 24, 32}
+	}
+	ing := vf_Choose("dir", 2) == 1
+	o := zzC04Opt{nIP: 2, nPod: 1, ns2: true, ingress: ing}
+	objs1 := zzC04SideX("s1", book, false, false, o)
+	objs2 := zzC04SideX("s2", book, false, false, o)
+	zzC04Check(objs1, objs2, []string{zzA, "ns2/a[Deployment]"}, []bool{!ing})
+}
+
+func zzC04Check(objs1, objs2 []parser.K8sObject, focuses []string, focusIsSrcs []bool) {
+	conns1, peers1, err := connlist.ZZConnsFromObjects(connlist.NewConnlistAnalyzer(connlist.WithMuteErrsAndWarns()), objs1)
+	vf_Assert(err == nil, "list-1")
+	conns2, peers2, err := connlist.ZZConnsFromObjects(connlist.NewConnlistAnalyzer(connlist.WithMuteErrsAndWarns()), objs2)
+	vf_Assert(err == nil, "list-2")
+	da := NewDiffAnalyzer()
+	d, err := da.computeDiffFromConnlistResults(conns1, conns2, peers1, peers2)
+	vf_Assert(err == nil, "diff-computed")
+	if err != nil {
+		return
+	}
+	addr := vf_Uint32("addr")
+	all := [][]SrcDstDiff{d.RemovedConnections(), d.AddedConnections(), d.ChangedConnections(), d.UnchangedConnections()}
+	types := []DiffTypeStr{RemovedType, AddedType, ChangedType, UnchangedType}
+	for _, focus := range focuses {
+		for _, focusIsSrc := range focusIsSrcs {
+			zzC04CheckIP(conns1, conns2, all, types, addr, focus, focusIsSrc)
+		}
+	}
 	// workload pairs
 	names1, names2 := map[string]bool{}, map[string]bool{}
 	for _, p := range peers1 {
